@@ -801,7 +801,11 @@ def gen_agents(r: random.Random, profile: str = "agents") -> Dict[str, Any]:
                            "netInterestSpread": r.choice([0.0, 0.01, 0.05, [0.001, 0.03]]),
                            **({"orderTimeLength": r.choice([1, 3, [2, 6]])} if r.random() < 0.6 else {})})
     if with_index and r.random() < 0.85:
-        w.add_group("ARB", {"class": "ProbeArb", "numAgents": r.randint(1, 2), "markets": allm, "cashAmount": 100000,
+        arb_markets = list(allm)
+        if r.random() < 0.12:
+            # an arbitrageur that sees the index but not every component of it
+            arb_markets.remove(r.choice(plain))
+        w.add_group("ARB", {"class": "ProbeArb", "numAgents": r.randint(1, 2), "markets": arb_markets, "cashAmount": 100000,
                             "assetVolume": 100, "orderVolume": r.randint(1, 3),
                             "orderThresholdPrice": r.choice([1.0, 0.5, 2.0, 0.0]),
                             **({"orderTimeLength": r.randint(1, 4)} if r.random() < 0.6 else {})})
